@@ -108,7 +108,13 @@ def run_stall(case, chooser):
     prefix = script[:case["k"]]
     kind = case["kind"]
     spy = backends.SpyControl()
-    rig = Rig(chooser=chooser, n_sessions=1, tree=corpus.TREE, spy=spy, window=1, advance=0,
+    users = None
+    if case.get("slow_logout"):
+        # a user manager whose logout notification takes 5 s (say, a database write): the stalled peer's sockets are
+        # still to be closed at the bound, not 5 s later
+        from vf.usermgr import make_slow_manager
+        users = lambda a, base: make_slow_manager(a, [a.User(base_path=base)], ops=("notify_logout",), delay=5)  # noqa
+    rig = Rig(chooser=chooser, n_sessions=1, tree=corpus.TREE, spy=spy, window=1, advance=0, users=users,
               server_kwargs={"block_size": 4, "idle_timeout": idle, "socket_timeout": sock,
                              "wait_future_timeout": wf})
     problems = []
@@ -137,6 +143,8 @@ def run_stall(case, chooser):
         chooser.active = False
         closed_at = ctl_server.close_time
         sig = {"script": case["script"], "stall": kind, "cfg": list(cfg)}
+        if case.get("slow_logout"):
+            sig["slow_logout"] = True
         if exp_release is None:
             if closed_at is not None:
                 problems.append({"kind": "released-although-no-timeout-applies", "at": closed_at})
@@ -226,7 +234,8 @@ def _work(item):
             part.outcomes[res["outcome"]] += 1
             part.sample({"case": case, "choices": ch.choices}, limit=1)
             for p in res["problems"]:
-                part.violation({"kind": p["kind"], "script": p["script"], "stall": case["kind"], "cfg": p["cfg"]},
+                part.violation({"kind": p["kind"], "script": p["script"], "stall": case["kind"], "cfg": p["cfg"],
+                                **({"slow_logout": True} if case.get("slow_logout") else {})},
                                {"problem": p, "case": case},
                                replay={"case": case, "choices": ch.choices, "kinds": kinds})
     except ReplayDivergence as exc:
@@ -245,6 +254,8 @@ def build_items(tier):
                 last = (["USER anonymous"] + script)[k]
                 if not last.startswith("@"):
                     items.append(({"cfg": list(cfg), "script": name, "k": k, "kind": "noread"}, 0, []))
+                if cfg == (IDLE, SOCK, WF) or (tier != "quick" and cfg != (None, None, None)):
+                    items.append(({"cfg": list(cfg), "script": name, "k": k, "kind": "silent", "slow_logout": True}, 0, []))
                 if tier != "quick":
                     items.append(({"cfg": list(cfg), "script": name, "k": k, "kind": "silent", "explore": True},
                                   1, ["early", "order"]))
@@ -260,7 +271,8 @@ def run(tier, seed, t0):
     bounds = {"configs": "all 8 combinations of idle_timeout {None,30}, socket_timeout {None,7}, wait_future_timeout {None,3}",
               "scripts": list(SCRIPTS), "stall_positions": "after every script event (one event per virtual second)",
               "stall_kinds": ["silent", "noread (peer window closed)", "never connects data (scripts *-no-data)"],
-              "chatty": "command every idle-1 s for 5 periods", "horizon_s": HORIZON, "cases": len(items)}
+              "chatty": "command every idle-1 s for 5 periods",
+              "user_manager": "stock, and one whose logout notification takes 5 s (silent stalls)", "horizon_s": HORIZON, "cases": len(items)}
     return report.finish(
         PID, tier, seed, "model_checking", part, t0,
         rule="case = (timeout config, script, stall position, stall kind); real server in SimLoop, zero network latency, "
